@@ -399,3 +399,25 @@ PROPS['C16'] = dict(
     technique='reference-model + differential (glibc strftime via FFI) monitor over all dates/seconds x specifiers, round-trip monitor for strptime and RFC 2822; release + debug-assertion builds',
     design_ref='DESIGN.md section 4, C16',
 )
+
+PROPS['C17'] = dict(
+    sub='c17',
+    prep=['synth'],
+    quick=[S('rel'), S('dbg', 'scale_pct=50')],
+    thorough=[S('rel'), S('dbg', 'scale_pct=25')],
+    rule='text: a corpus of ~1000 strings harvested from jiff\'s own printers (Timestamp/Zoned/civil Display, printer options, RFC 2822 and RFC 9110, 24 strftime formats, ISO and friendly spans/durations over random friendly configurations, offsets, RFC 9557 annotations, POSIX TZ strings) -> every prefix and suffix of every corpus string, then seeded inputs: random bytes, random bytes over the grammar alphabet, and 16 grammar-aware mutations '
+         '(truncate, delete, splice interesting tokens, lengthen digit runs, sign/separator swap, slice duplication x50, byte replace, cross-over, 64..5000-long runs, swaps, case flips, boundary numbers, non-UTF-8, padding, windows), each fed to all 26 text targets (FromStr of 7 types, temporal DateTimeParser x7, Pieces, temporal/friendly SpanParser x4, RFC 2822 x3, strptime over 24 formats, strftime with the input as format, TimeZone::posix, the jiff-static copy of the POSIX parser); '
+         'strptime/strftime with generated and mutated format strings x (formatted text, mutated formatted text, corpus strings). '
+         'TZif: every system, bundled (1/16) and synthetic file unmutated, every truncation length of every 23rd file, structure-aware mutations (14 kinds: header counts, version, extreme/unsorted/duplicate times, type indices, utoff/isdst/desigidx, designation table, indicators, block-boundary truncation, hostile footers, byte flips, v1/v2 disagreement) and generated structurally-consistent hostile files; every accepted zone gets the lookup battery (offset info, civil resolution around each probed instant, both iterators; every 4th accepted zone runs both iterators to exhaustion under a cap above any possible transition count), and is compared with the jiff-static copy of the TZif parser (Ok/Err). '
+         'Mutated concatenated tzdata containers through from_concatenated_path + get/available. '
+         'Work vs size: thread CPU time of 26 targets x 21 run shapes at n = 2^12..2^19. '
+         'Oracles: panic hook; Ok values: range predicates + print->reparse equality; iterators terminate; t(2n)/t(n) <= 3 (reproduced 3 times, t > 5 ms). distinct_nontrivial = distinct inputs (every 8th, and all accepted ones) + distinct TZif byte strings (every 4th)',
+    floors={'quick': {'evaluations': 60000000, 'tzif_accepted': 10000, 'cost_pairs': 500}, 'thorough': {'evaluations': 2000000000, 'tzif_accepted': 400000, 'cost_pairs': 500}},
+    assumptions=COMMON_ASSUME + ['"sane" for Zoned re-parse: same civil datetime, same zone name and offset, same instant when the offset has no seconds (C09 owns sub-minute offsets); Pieces with a sub-minute offset re-parse equal except for the rounded offset',
+                                 'non-termination is judged by a step cap above any possible transition count (explicit transitions <= len/8, rule transitions <= 2 per year), never by wall clock',
+                                 'work proportional to size is judged on thread CPU time ratios; a ratio that does not reproduce three times is reported as a note, not a violation'],
+    level_text='Hostile-input monitoring of every parser entry point in release and debug-assertion builds: panic hook, range and print->reparse monitors on every accepted value, a lookup battery with iterator-termination monitor on every accepted time zone, agreement of the two copies of the shared TZif/POSIX parsers, and a CPU-time scaling monitor.',
+    level_note='"All byte strings" is unbounded: reach is volume plus grammar- and structure-aware mutation; a green run is a statement about the inputs counted in coverage. Memory-safety tooling (Miri/ASan) is applied to the TimeZone representation under C20; the parsers themselves contain no unsafe code.',
+    technique='hostile-workload monitoring (panic hook + range/round-trip/termination/CPU-scaling monitors) over grammar-aware text mutation and structure-aware TZif mutation; release + debug-assertion builds',
+    design_ref='DESIGN.md section 4, C17',
+)
